@@ -89,6 +89,8 @@ impl VoiceSet {
 
         let mut result = first_voice.mul(*first_weight);
         for (param, weight) in params_iter.zip(weights_iter) {
+            #[cfg(jbonsai_verif)]
+            crate::verif::yield_point(21);
             result.mul_add_assign(*weight, param);
         }
         result
